@@ -128,3 +128,83 @@ C("mako.runtime:Context.writer",
   ensures=[("writer-of-top", "same(result, self._buffer_stack[len(self._buffer_stack) - 1].write)"),
            ("pure", "self._buffer_stack == old(self._buffer_stack)")],
   props=["C05"])
+
+# ---------------------------------------------------------------------------
+# FastEncodingBuffer.getvalue (C10.buffer, C18.render)
+
+C("mako.util:FastEncodingBuffer.getvalue",
+  params={"self": "FastEncodingBuffer"}, returns="Any",
+  ensures=[("plain", "implies(not truthy(self.encoding), result == box(str_join(self.delim, self.data)))"),
+           ("encoded", "implies(truthy(self.encoding), result == box(str_encode(str_join(self.delim, self.data), self.encoding, self.errors)))"),
+           ("pure", "self.data == old(self.data)")],
+  raises={"*": {"when": "truthy(self.encoding)"}},
+  props=["C10", "C18", "C05"],
+  note="encode() may raise (UnicodeEncodeError / LookupError) only on the encoding branch")
+
+# ---------------------------------------------------------------------------
+# callable specs: the induction hypothesis for render callables (R3)
+
+_BAL_MOD = ["context._buffer_stack", "context.caller_stack", "ptr(context.caller_stack.nextcaller)",
+            "heap('list:Str')", "heap('f:FastEncodingBuffer.data')", "heap('f:FastEncodingBuffer.write')",
+            "heap('f:FastEncodingBuffer.encoding')"]
+_BAL_POST = [
+    ("bstack-same", "context._buffer_stack == old(context._buffer_stack)"),
+    ("cstack-same", "context.caller_stack == old(context.caller_stack)"),
+    ("nextcaller-same", "same(context.caller_stack.nextcaller, old(context.caller_stack.nextcaller))"),
+    ("existing-buffers-keep-fields",
+     "forall(lambda b: implies(0 < b and b < old(alloc), same(bufdata(b), old(bufdata(b))) and same(bufwrite(b), old(bufwrite(b))) and bufenc(b) == old(bufenc(b))))"),
+    ("below-top-untouched",
+     "forall(lambda i: content(context._buffer_stack[i].data) == old(content(context._buffer_stack[i].data)), 0, len(context._buffer_stack) - 1)"),
+    ("top-extended",
+     "implies(len(context._buffer_stack) >= 1, prefix_of(old(content(context._buffer_stack[len(context._buffer_stack) - 1].data)), content(context._buffer_stack[len(context._buffer_stack) - 1].data)))"),
+]
+
+FUNSPEC("balanced",
+        params={"*args": "Star", "**kwargs": "Star"}, returns="Any",
+        requires=[("stack-nonempty", "len(context._buffer_stack) >= 1")],
+        modifies=_BAL_MOD,
+        ensures=_BAL_POST,
+        raises={"*": {"ensures": _BAL_POST}},
+        note="Induction hypothesis for any render callable / template-author callable run against the "
+             "ambient `context`: it leaves both stacks as it found them (normal and exceptional exit), "
+             "only extends the content of the buffer that was on top, and does not touch buffers below.")
+
+# ---------------------------------------------------------------------------
+# capture / supports_caller
+
+C("mako.runtime:capture",
+  params={"context": "Context", "callable_": "Fun[balanced]", "*args": "Star", "**kwargs": "Star"},
+  returns="Any",
+  requires=[("stack-nonempty", "len(context._buffer_stack) >= 1"),
+            ("wf", "allocated(context._buffer_stack)")],
+  ensures=[("stack-restored", "context._buffer_stack == old(context._buffer_stack)"),
+           ("output-untouched",
+            "forall(lambda i: content(context._buffer_stack[i].data) == old(content(context._buffer_stack[i].data)), 0, len(context._buffer_stack))"),
+           ("cstack-same", "context.caller_stack == old(context.caller_stack)"),
+           ("was-callable", "is_callable(callable_)")],
+  raises={"RuntimeException": {"when": "not is_callable(callable_)",
+                               "ensures": [("stack-untouched", "context._buffer_stack == old(context._buffer_stack)")]},
+          "*": {"ensures": [("stack-restored", "context._buffer_stack == old(context._buffer_stack)"),
+                            ("output-untouched",
+                             "forall(lambda i: content(context._buffer_stack[i].data) == old(content(context._buffer_stack[i].data)), 0, len(context._buffer_stack))"),
+                            ("cstack-same", "context.caller_stack == old(context.caller_stack)")]}},
+  props=["C05", "C13"])
+
+C("mako.runtime:supports_caller.wrap_stackframe",
+  params={"context": "Context", "*args": "Star", "**kwargs": "Star"},
+  captures={"func": "Fun[balanced_ctx]"},
+  returns="Any",
+  requires=[("stack-nonempty", "len(context._buffer_stack) >= 1")],
+  ensures=[("cstack-restored", "context.caller_stack == old(context.caller_stack)"),
+           ("nextcaller-restored", "same(context.caller_stack.nextcaller, ite(truthy(old(context.caller_stack.nextcaller)), old(context.caller_stack.nextcaller), None))"),
+           ("bstack-same", "context._buffer_stack == old(context._buffer_stack)")],
+  raises={"*": {"ensures": [("cstack-restored", "context.caller_stack == old(context.caller_stack)"),
+                            ("nextcaller-restored", "same(context.caller_stack.nextcaller, ite(truthy(old(context.caller_stack.nextcaller)), old(context.caller_stack.nextcaller), None))"),
+                            ("bstack-same", "context._buffer_stack == old(context._buffer_stack)")]}},
+  props=["C05", "C13"])
+
+FUNSPEC("balanced_ctx",
+        params={"ctx": "Context", "*args": "Star", "**kwargs": "Star"}, returns="Any",
+        requires=[("stack-nonempty", "len(context._buffer_stack) >= 1"), ("same-ctx", "same(ctx, context)")],
+        modifies=_BAL_MOD, ensures=_BAL_POST, raises={"*": {"ensures": _BAL_POST}},
+        note="as `balanced`, for callables that receive the context as first argument")
